@@ -174,14 +174,29 @@ class GeomCase:
                 for idx in np.ndindex(N, C, H, W):
                     spec_fu[idx] = x[idx] * int(cnt[idx[2], idx[3]])
                 compare(CT + "fold_of_unfold.multiplies_by_window_count", fu, spec_fu, "fold(unfold(x))")
+                # the same clauses natively on float64 and on int64 operands above 2**53 (bounded; "any x and y" includes values floats cannot carry)
+                with shim.native():
+                    nrep = self._native("native clauses")
+                res["faithful"] += 1
+                if nrep.get("reproduced") and not res["failures"]:
+                    bad = [k_ for k_, v_ in (nrep.get("native_facts") or {}).items() if not v_]
+                    res["obligations"] += 1
+                    res["failures"].append({"obligation": CT + "variants_agree_for_any_x_and_y", "what": "natively: %s" % (bad or nrep.get("native_exception")), "reproduced": True, "replay": nrep})
             except Exception as e:
                 rep = self._native("raises")
                 import traceback
                 if rep.get("native_exception"):
                     res["failures"].append({"obligation": CT + "accepts_documented_geometry", "what": "raised %s: %s on a geometry with %d windows"
                                             % (type(e).__name__, str(e)[:200], L), "reproduced": True, "replay": rep})
+                elif rep.get("reproduced"):
+                    bad = [k_ for k_, v_ in (rep.get("native_facts") or {}).items() if not v_]
+                    res["failures"].append({"obligation": CT + "variants_agree_for_any_x_and_y", "what": "natively: %s fail(s) (the symbolic run raised %s: %s)" % (bad, type(e).__name__, str(e)[:120]),
+                                            "reproduced": True, "replay": rep})
                 else:
-                    res["errors"].append("%s: symbolic run raised %s: %s but the native run did not\n%s" % (self.key, type(e).__name__, e, traceback.format_exc()[-1200:]))
+                    # the routine does not run on symbolic (object-dtype) arrays although it runs on floats and integers: outside what this verifier can execute
+                    res["obligations"] += 1
+                    res["undecided"].append({"obligation": CT + "symbolic_run %s" % (self.key,), "reason": "raised %s: %s on object arrays; the native float64 / int64 replay satisfies every clause"
+                                             % (type(e).__name__, str(e)[:160])})
 
     def on_crash(self, why):
         """the symbolic run killed the interpreter (e.g. a strided view over object pointers read out of bounds): decide on floats"""
@@ -214,6 +229,14 @@ class GeomCase:
             a0 = ct.im2col_fast(x, k, d, s_, p, 0, as_unfold=True)
             facts = {"im2col variants agree": bool(np.array_equal(a, b) and np.array_equal(a, c)), "col2im variants agree": bool(np.allclose(i1, i2) and np.allclose(i1, i3)),
                      "adjoint": bool(np.isclose((a0 * y).sum(), (x * i3).sum()))}
+            # "any x and y": integer operands beyond 2**53 (not representable in float64) -- the routines only move and add values, so the variants agree EXACTLY
+            # and the adjoint identity holds in exact integer arithmetic
+            xi = _layout(rng.randint(-3, 4, size=(N, C, H, W)).astype(np.int64), self.layout)
+            yi = (rng.randint(1, 8, size=a.shape).astype(np.int64) << 54) + rng.randint(0, 1000, size=a.shape)
+            j1, j2, j3 = (f_(yi, (N, C, H, W), k, d, s_, p) for f_ in (ct.col2im, ct.col2im_v2, ct.col2im_fast))
+            ai = ct.im2col(xi, k, d, s_, p, 0, as_unfold=True)
+            facts["col2im variants agree exactly on int64 operands above 2**53"] = bool(all(np.asarray(j).dtype.kind == "i" for j in (j1, j2, j3)) and np.array_equal(j1, j2) and np.array_equal(j1, j3))
+            facts["adjoint exact on int64"] = bool(int((np.asarray(ai, dtype=object) * np.asarray(yi, dtype=object)).sum()) == int((np.asarray(xi, dtype=object) * np.asarray(j1, dtype=object)).sum()))
             rep["native_facts"] = facts
             rep["reproduced"] = not all(facts.values())
         except Exception as e:
